@@ -17,7 +17,7 @@ SMALL_TREES = {
 }
 GENERIC = [f"{op}:{cls}" for cls in ("Leaf", "Names", "Solo", "Words") for op in ("parse", "from_dict", "bytes", "to_dict")
            if not (cls == "Words" and op == "from_dict")]
-SCENARIOS = GENERIC + ["tiny_oneof", "tiny_from_dict", "tiny_parse", "parse_small", "from_dict_names", "from_json_names", "bytes_small", "to_dict_small", "oneof_history", "varints_small",
+SCENARIOS = GENERIC + ["parse_unknown", "tiny_oneof", "tiny_from_dict", "tiny_parse", "parse_small", "from_dict_names", "from_json_names", "bytes_small", "to_dict_small", "oneof_history", "varints_small",
              "parse_vs_from_dict", "maps_parse", "enum_lookups", "pickle_copy", "parse_wide", "words_parse"]
 
 _C = {}
@@ -212,6 +212,14 @@ def _scenario(name):
         data = b"\x12\x01x\x18\x07\x22\x01t\x2a\x05\x0a\x01k\x10\x05"
         f = lambda: Tiny().parse(data)  # noqa: E731
         return [f, f], lambda m: None if (betterproto.which_one_of(m, "g"), m.line_1, m.tags, m.m) == (("b", "x"), 7, ["t"], {"k": -3}) else f"got {m!r}"
+    if name == "parse_unknown":
+        # records the schema does not know, with multi-byte varints in tags, lengths and values: re-emitted byte for byte
+        data_a = wire.tag(2000, 0) + wire.enc_varint(300) + wire.tag(1, 0) + wire.enc_varint(5) + wire.tag(70000, 2) + wire.enc_varint(3) + b"abc" + wire.tag(2001, 0) + wire.enc_varint(2**40 + 7)
+        data_b = wire.tag(3000, 0) + wire.enc_varint(278) + wire.tag(2, 2) + wire.enc_varint(1) + b"s" + wire.tag(90000, 0) + wire.enc_varint(2**63) + wire.tag(3001, 0) + wire.enc_varint(16384)
+        mk = lambda d: (lambda: bytes(c.bp("Leaf")().parse(d)))  # noqa: E731
+        exp = {0: data_a, 1: data_b}
+        return [mk(data_a), mk(data_b)], lambda b: None if b in (wire.tag(1, 0) + wire.enc_varint(5) + data_a.replace(wire.tag(1, 0) + wire.enc_varint(5), b"", 1),
+                                                                   wire.tag(2, 2) + wire.enc_varint(1) + b"s" + data_b.replace(wire.tag(2, 2) + wire.enc_varint(1) + b"s", b"", 1)) else f"re-encoded as {b.hex()}"
     if name == "varints_small":
         vals = [0, 1, 127, 128, 300, 16383, 16384, -1, 2**63]
         op = lambda: ([betterproto.encode_varint(v) for v in vals], [betterproto.size_varint(v) for v in vals], [betterproto.decode_varint(wire.enc_varint(v), 0) for v in vals])  # noqa: E731
